@@ -134,6 +134,11 @@ class ClockSock(env.ScriptSock):
         return self.timeout
 
 
+def trace_variant(desc, tier):
+    """Every task is run a second time with trace logging enabled (enableTrace(True) is a process-wide configuration)."""
+    return True
+
+
 def tasks(tier, seed):
     ts = []
     depth = 4 if tier == "quick" else 6
